@@ -20,6 +20,11 @@ with open(os.path.join(HERE, "seeded", "README.md"), "w") as out:
     out.write("# Independently written property-breaking changes\n\n")
     out.write("Each directory holds `patch.diff` (applies to /repo HEAD with `git apply`), `demo.py` (exits 0 on the unchanged tree, 1 with the change), the author's `notes.md` and `meta.json` (what was run to confirm it and which checks fire). ")
     out.write("The authors were sub-agents that saw only the property text and a scratch worktree. Every change keeps the repository suite at 273 passes.\n\n")
+    import subprocess
+
+    stale = [r[0] for r in rows if subprocess.run(["git", "-C", "/repo", "apply", "--check", os.path.join(HERE, "seeded", r[0], "patch.diff")], capture_output=True).returncode != 0]
+    if stale:
+        out.write("Patches written against an earlier HEAD that later `fix:` commits have since touched, and that therefore no longer apply as they are: " + ", ".join(stale) + " (they were confirmed and evaluated at the HEAD of their round).\n\n")
     out.write("| id | change | needs | caught by (quick tier) | remark | confirmed |\n|---|---|---|---|---|---|\n")
     for r in rows:
         out.write("| " + " | ".join(x.replace("|", "/").replace("\n", " ") for x in r) + " |\n")
